@@ -21,11 +21,12 @@ def numsys_class(name):
     return getattr(_eqsys, "NumSys" + name)
 
 
-def build_system(species, nu, consts, spform="comp"):
+def build_system(species, nu, consts, spform="comp", written=None):
     """species: [{'name', 'comp': [[key, n], ...], optional 'solid': bool}], nu: rows over species,
     consts: one parameter per reaction (any number type).  spform "comp": Species(name, charge,
     composition=...), "formula": Species.from_formula(name) (the name is a formula of the same
-    composition).  Returns (EqSystem, names)."""
+    composition).  written: {'kind', 'i', 'j', 'm'} (0-based reaction i, species j in the given order).
+    Returns (EqSystem, names)."""
     from chempy import Species, Equilibrium
     from chempy.equilibria import EqSystem
     subs, names = [], []
@@ -39,10 +40,19 @@ def build_system(species, nu, consts, spform="comp"):
             subs.append(Species(sp["name"], charge, composition=comp, **kw))
         names.append(sp["name"])
     eqs = []
-    for row, k in zip(nu, consts):
+    for i, (row, k) in enumerate(zip(nu, consts)):
         reac = {names[j]: -int(v) for j, v in enumerate(row) if int(v) < 0}
         prod = {names[j]: int(v) for j, v in enumerate(row) if int(v) > 0}
-        eqs.append(Equilibrium(reac, prod, k))
+        kw = {}
+        if written and written["kind"] != "net" and written["i"] == i:
+            # the written form: species j stands on BOTH sides with the extra amount m (net unchanged)
+            nm, m = names[written["j"]], int(written["m"])
+            if written["kind"] == "inact":
+                kw = {"inact_reac": {nm: m}, "inact_prod": {nm: m}}
+            else:
+                reac[nm] = reac.get(nm, 0) + m
+                prod[nm] = prod.get(nm, 0) + m
+        eqs.append(Equilibrium(reac, prod, k, **kw))
     return EqSystem(eqs, subs), names
 
 
